@@ -51,11 +51,6 @@ def sortedKeys : List Int → Bool
 /-- the check `!std::isfinite(k[j]) || (j > 0 && k[j] < k[j-1])` never fires -/
 def knotsValid (k : List UInt64) : Bool := k.all finiteBits && sortedKeys (k.map dkey)
 
-/-- row-major strides: `strides[i] = Π_{j>i} naxes[j]` -/
-def rowMajor : List Nat → List Nat
-  | [] => []
-  | _ :: as => prod as :: rowMajor as
-
 /-- one dimension: enough knots for the order, coefficient count matches, knots finite and non-decreasing -/
 def DimWF (o na : Nat) (k : List UInt64) : Prop :=
   2 * o + 2 ≤ k.length ∧ na = k.length - o - 1 ∧ knotsValid k = true
